@@ -66,6 +66,20 @@ CHECKS = {
    "process kill stands for a crash; the file output's target file is the delivery record; the README's documented truncation caveat is outside the scenarios", "DESIGN.md §3 C03"),
 }
 
+# clauses added in round 5 (appended to the level text of the check)
+ROUND5 = {
+ "C03": " Round 5: one of the stream values carries the ': ' separator of the offsets file.",
+ "C07": " Round 5: temp files left behind by a save killed in an earlier process life (first or second save of that life, four protocol points) must not affect fault-free saves of a later life; an offsetDB that loaded the file and then saves the table of its present jobs (some gone, some advanced, some new) must leave exactly that table.",
+ "C11": " Round 5: 'overlap' family (several uploads aborted mid-body, then uploads interleaved by a turn scheduler at every body Read and inside In; every datum attributed to its request) and 'big' family (gzip and plain bodies beyond 32 and 64 MiB, regenerated line by line, complete hand-over).",
+ "C13": " Round 5: directed truncation sweep - every cut of every dictionary line (log lines cut at any byte) on every referenced field of every configuration.",
+ "C14": " Round 5: part D selector chains - groups of 2-4 neighbouring actions with identical / permuted / nearly identical / unrelated selectors (match_fields and do_if) where applied actions set, add or remove exactly the fields later selectors read; each action's selector is judged on the event as that action receives it.",
+ "C15": " Round 5: actions behind the joining action (discard with match conditions or do_if, modify, both orders; runs dropped there are accounted as deliberately dropped, order and byte conservation judged on what reaches the output) and join fields that are not JSON strings inside and outside runs.",
+ "C16": " Round 5: 'many' clause - rule lists of 4-110 rules (counts around 26/27, 32/33, 52/53, 64/65) with one (key, bucket) seen through many rules with distinct limits, plus a model-free rule-isolation replay.",
+ "C17": " Round 5: long mask lists (61-72 fillers before three masks with field lists of their own, mask indices beyond 64), masks with do_if judged by the model, and a parallel pass (8 processors started from one config pointer) whose outputs must be byte-identical to the single-processor pipeline.",
+ "C19": " Round 5: 'bigfile' family - the file output behind the real Batcher with 2-8 workers, events encoding to 260 KiB-3 MiB, seal-ups in between; every produced file judged line by line.",
+ "C20": " Round 5: B.fold (antispam exceptions, records and source names with non-ASCII letters in every case spelling; all modes x case_insensitive x invert) and B.foldlen (letters whose lower-case form has another UTF-8 length; the cut-before-lower-casing defect of cfg/matchrule is a listed finding).",
+}
+
 PENDING_REASON = "check not built yet in this round (runtime-monitoring design in DESIGN.md §3); not claimed until its monitor exists and is silent on the unchanged tree"
 
 def hook_commits():
@@ -82,6 +96,7 @@ def main():
         pid = p["id"]
         if pid in CHECKS and os.path.isdir(os.path.join(ROOT, "harness", "cmd", pid.lower())):
             level, technique, text, note, ref = CHECKS[pid]
+            text += ROUND5.get(pid, "")
             checks.append({
                 "property_id": pid,
                 "quick_cmd": f"./run.sh {pid} quick",
